@@ -50,11 +50,24 @@ func walkTemplates(name string, full bool) []*rstep.ANode {
 		add(&rstep.ANode{Action: prog(true, Op{K: actlang.Emit, V: M{"at": name}}, Op{K: actlang.Set, A: "c", V: 1.0}), Branches: []rstep.ABranch{{Target: x}}})
 		add(&rstep.ANode{Action: prog(false, Op{K: actlang.Emit, V: M{"js": name}}, Op{K: actlang.Del, A: "c"}, Op{K: actlang.Emit, V: M{"js2": name}}), Branches: []rstep.ABranch{{Target: x}}})
 		add(&rstep.ANode{Action: prog(true, Op{K: actlang.Emit, V: "lost"}, Op{K: actlang.Throw}), Branches: []rstep.ABranch{{Target: x}}})
+		// a native action that edits the bindings it is handed in place, as the repository's own native actions do
+		// (bs.Extend): inside a walk it is handed the walk's working state, never a recorded one
+		add(&rstep.ANode{Action: prog(true, Op{K: actlang.InPlace}, Op{K: actlang.Del, A: "c"}, Op{K: actlang.Set, A: "s", V: name}, Op{K: actlang.Set, A: "?x", V: 3.0}), Branches: []rstep.ABranch{{Target: x}}})
 		if full {
 			add(&rstep.ANode{Action: prog(true, Op{K: actlang.Del, A: "c"}), Type: "bindings", Branches: []rstep.ABranch{{Pattern: M{"?x": 1.0}, Target: x}, {Target: x}}})
 		}
 	}
 	return ts
+}
+
+// editsInPlace: does some native action of the spec write into the map it is given?
+func editsInPlace(as *rstep.ASpec) bool {
+	for _, n := range as.Nodes {
+		if n.Action != nil && len(n.Action.Ops) > 0 && n.Action.Ops[0].K == actlang.InPlace {
+			return true
+		}
+	}
+	return false
 }
 
 // canFail: can a step at this node fail (throwing action or guard, action node that follows no branch)?
